@@ -218,6 +218,23 @@ def run(prog, rep, tier):
     else:
         r3.fail(dv.name, "fib-not-ecmp", "the FIB request does not carry ecmp_paths()", dv.loc())
 
+    # VRF tables: a withdrawal (no eligible path left, empty next-hop set) must reach every VRF table -- it cannot be made to depend
+    # on the import targets of a best path that no longer exists
+    from ..util import bool_true_requires
+    vrf_applies = [b for b, t in applies if any(b in body for h, body, backs in loops(dv))]
+    if not vrf_applies:
+        r3.unanalysable("distribute_update: no per-VRF KernelHandle::apply (inside the loop over VRFs)", dv.loc())
+    for b in vrf_applies:
+        gs = flat_guards(dv, b, branches(dv, Renderer(dv, depth=12, through_names=True)), named=True)
+        for g, l, h in list(gs):
+            if g[0] == "var" and l == {"true"}:
+                gs += bool_true_requires(dv, g[1])
+        need_best = [g for g, l, h in gs if l == {"true"} and h != "not" and any(c.endswith("Vrf::can_import") or c.endswith("NlriChange::new_best") for c in expr_calls(g) + [c2 for x in walk(g) if isinstance(x, tuple) and x and x[0] == "agg" and x[1] == "closure" and x[2] in prog.ix for c2 in [prog.name(k2) for k2 in prog.callees(x[2]) if k2 in prog.ix]])]
+        if need_best:
+            r3.fail(dv.name, "vrf-withdraw-needs-best", "the per-VRF FIB request is sent only if %s holds: when the prefix loses its last eligible path there is no best path to test, so the "
+                    "withdrawal never reaches the VRF tables and they keep the old next hops" % show(need_best[0], 70), dv.loc(b))
+        else:
+            r3.ok("distribute_update: the per-VRF request is also sent when there is no best path (withdrawal)")
     # the set itself: the run of paths equal to the best on every step before the router-id step (shared with R02.3)
     from . import c02
     from ..cfg import FnView
